@@ -9,11 +9,13 @@ import (
 	"encoding/json"
 	"fmt"
 	"os"
+	"os/exec"
 	"path/filepath"
 	"runtime"
 	"sort"
 	"strings"
 	"sync"
+	"sync/atomic"
 	"time"
 )
 
@@ -64,6 +66,7 @@ type Plan struct {
 	Assume     []string
 	Gen        func(tier string, yield func(Case))
 	Workers    int  // 0 = NumCPU
+	Procs      int  // >0: shard cases over this many worker processes (isolates process-global state); each runs Workers goroutines (default 1)
 	Exhaustive bool // set false by Gen through Cap()
 	Caps       []string
 	Extra      map[string]any
@@ -133,6 +136,63 @@ type violRec struct {
 	V      Violation
 }
 
+type shardOut struct {
+	Cases, Evals, Nontriv, Transitions, Skipped int
+	States                                      []string
+	Outcomes                                    map[string]int
+	Viols                                       []violRec
+	Flaky                                       []string
+	Samples                                     []any
+	Caps                                        []string
+	Bounds                                      map[string]any
+}
+
+// runShards re-executes this binary once per shard and collects the results.
+func runShards(n int) []shardOut {
+	dir, err := os.MkdirTemp(filepath.Join(verifDir(), ".build"), "shards-")
+	if err != nil {
+		fmt.Println("HARNESS-ERROR:", err)
+		os.Exit(2)
+	}
+	defer os.RemoveAll(dir)
+	outs := make([]shardOut, n)
+	var wg sync.WaitGroup
+	var failed atomic.Int32
+	for i := 0; i < n; i++ {
+		wg.Add(1)
+		go func(i int) {
+			defer wg.Done()
+			of := filepath.Join(dir, fmt.Sprintf("shard%d.json", i))
+			cmd := exec.Command(os.Args[0], os.Args[1:]...)
+			cmd.Env = append(os.Environ(), fmt.Sprintf("VERIF_SHARD=%d/%d", i, n), "VERIF_SHARD_OUT="+of)
+			cmd.Stderr = os.Stderr
+			ob, err := cmd.Output()
+			if err != nil {
+				fmt.Printf("HARNESS-ERROR: shard %d failed: %v\n%s\n", i, err, tail(ob))
+				failed.Add(1)
+				return
+			}
+			b, err := os.ReadFile(of)
+			if err != nil || json.Unmarshal(b, &outs[i]) != nil {
+				fmt.Printf("HARNESS-ERROR: shard %d produced no result\n", i)
+				failed.Add(1)
+			}
+		}(i)
+	}
+	wg.Wait()
+	if failed.Load() > 0 {
+		os.Exit(2)
+	}
+	return outs
+}
+
+func tail(b []byte) string {
+	if len(b) > 2000 {
+		b = b[len(b)-2000:]
+	}
+	return string(b)
+}
+
 // Main runs the plan and exits with the check's status.
 func Main(p *Plan, tier string, replayID string, seed int64) {
 	start := time.Now()
@@ -140,6 +200,9 @@ func Main(p *Plan, tier string, replayID string, seed int64) {
 	workers := p.Workers
 	if workers <= 0 {
 		workers = runtime.NumCPU()
+		if p.Procs > 0 {
+			workers = 1
+		}
 	}
 	if replayID != "" {
 		workers = 1
@@ -215,17 +278,75 @@ func Main(p *Plan, tier string, replayID string, seed int64) {
 		}()
 	}
 	found := false
-	p.Gen(tier, func(c Case) {
-		if replayID != "" {
-			if c.ID != replayID {
+	shardI, shardN := -1, 0
+	if sh := os.Getenv("VERIF_SHARD"); sh != "" {
+		fmt.Sscanf(sh, "%d/%d", &shardI, &shardN)
+	}
+	var merged []shardOut
+	if p.Procs > 0 && shardN == 0 && replayID == "" {
+		// parent of a process-sharded run: nothing is executed here
+		close(ch)
+		wg.Wait()
+		merged = runShards(p.Procs)
+		found = true
+	} else {
+		idx := 0
+		p.Gen(tier, func(c Case) {
+			if replayID != "" {
+				if c.ID != replayID {
+					return
+				}
+				found = true
+			}
+			idx++
+			if shardN > 0 && (idx-1)%shardN != shardI {
 				return
 			}
-			found = true
+			ch <- c
+		})
+		close(ch)
+		wg.Wait()
+	}
+	for _, m := range merged {
+		caseCount += m.Cases
+		evals += m.Evals
+		nontriv += m.Nontriv
+		transitions += m.Transitions
+		skipped += m.Skipped
+		for _, st := range m.States {
+			states[st] = struct{}{}
 		}
-		ch <- c
-	})
-	close(ch)
-	wg.Wait()
+		for k, v := range m.Outcomes {
+			outcomes[k] += v
+		}
+		viols = append(viols, m.Viols...)
+		flaky = append(flaky, m.Flaky...)
+		if len(samples) < 12 {
+			samples = append(samples, m.Samples...)
+		}
+		for _, c := range m.Caps {
+			p.Cap(c)
+		}
+		if p.Bounds == nil {
+			p.Bounds = m.Bounds
+		}
+	}
+	if shardN > 0 {
+		st := make([]string, 0, len(states))
+		for k := range states {
+			st = append(st, k)
+		}
+		if len(samples) > 3 {
+			samples = samples[:3]
+		}
+		out := shardOut{Cases: caseCount, Evals: evals, Nontriv: nontriv, Transitions: transitions, Skipped: skipped, States: st, Outcomes: outcomes, Viols: viols, Flaky: flaky, Samples: samples, Caps: p.Caps, Bounds: p.Bounds}
+		b, _ := json.Marshal(out)
+		if err := os.WriteFile(os.Getenv("VERIF_SHARD_OUT"), b, 0o644); err != nil {
+			fmt.Println("HARNESS-ERROR: shard output:", err)
+			os.Exit(2)
+		}
+		os.Exit(0)
+	}
 
 	if replayID != "" && !found {
 		fmt.Printf("HARNESS-ERROR: replay case %q not generated by property %s tier %s\n", replayID, p.Property, tier)
@@ -255,12 +376,14 @@ func Main(p *Plan, tier string, replayID string, seed int64) {
 	}
 	nViol := 0
 	nKnown := 0
+	knownHits := map[int][2]int{} // finding index -> (distinct keys, cases)
 	for _, g := range groups {
 		known := false
-		for _, f := range kf {
+		for fi, f := range kf {
 			if f.Property == p.Property && f.Status == "known" && keyMatches(f.Key, g.key) {
 				known = true
-				fmt.Printf("KNOWN-FINDING: property=%s key=%s cases=%d %s\n", p.Property, g.key, g.n, f.What)
+				h := knownHits[fi]
+				knownHits[fi] = [2]int{h[0] + 1, h[1] + g.n}
 				break
 			}
 		}
@@ -280,6 +403,11 @@ func Main(p *Plan, tier string, replayID string, seed int64) {
 		_ = os.WriteFile(file, b, 0o644)
 		fmt.Printf("VIOLATION property=%s replay=%s\n", p.Property, file)
 		fmt.Printf("  key=%s cases=%d first=%s\n  %s\n", g.key, g.n, g.first.CaseID, g.first.V.What)
+	}
+	for fi, f := range kf {
+		if h, ok := knownHits[fi]; ok {
+			fmt.Printf("KNOWN-FINDING: property=%s key=%s keys=%d cases=%d %s\n", p.Property, f.Key, h[0], h[1], f.What)
+		}
 	}
 	for _, f := range flaky {
 		fmt.Printf("FLAKY-HARNESS property=%s %s\n", p.Property, f)
